@@ -251,6 +251,8 @@ def run(ctx):  # noqa: C901, PLR0912
     common.entity_getters_hand_out_copies(ctx, 'C12.R3')
     common.copies_are_deep(ctx, 'C12.R3', with_mk_copy=False)
     common.written_entities_are_copied(ctx, 'C12.R3')
+    common.property_tables_are_computed(ctx, 'C12.R2')
+    common.descriptor_classes_hold_no_shared_state(ctx, 'C12.R2')
     from .c05 import writers_copy_lxml_values
     writers_copy_lxml_values(ctx, 'C12.R3', used_in=['sdc11073.mdib.', 'sdc11073.xml_types.pm_types'], floor=1)
     # ------------------------------------------------------------------ R3
